@@ -139,6 +139,8 @@ def gen_program(rng):
     for _ in range(rng.choice([0, 0, 0, 1, 1, 2])):
         i = add({'k': 'mem', 'bw': rng.choice([1, 2, 4, 8]), 'aw': rng.choice([1, 2, 3, 5]),
                  'async': rng.random() < 0.75})
+        if mems and rng.random() < 0.3:
+            prog[i]['name_of'] = mems[0]        # a second memory bearing the first one's name
         mems.append(i)
     sync = {m for m in mems if not prog[m]['async']}
 
@@ -250,7 +252,8 @@ def gen_case(streams, tier):
             'pairs': {'mode': g.choice(['all', 'all', 'named'])},
             'call': g.choice(['single', 'bulk', 'bulk_dstnets', 'bulk_iterators']),
             'scheds': gen_scheds(streams, k),
-            'rewrite': g.choice([None, 'optimize', 'optimize', 'one_bit_selects', 'two_way_concat']),
+            'rewrite': g.choice([None, 'optimize', 'optimize', 'one_bit_selects', 'two_way_concat',
+                                 'add_read_port']),
             # a first TimingAnalysis whose user-supplied delay function raises on its k-th call
             'abort_at': g.randrange(1, 12) if g.random() < 0.3 else None,
             'sched': world.gen_sched(streams, with_iter=False, noise=False)}
@@ -323,7 +326,7 @@ def build(prog, implicit=False):
                 named.add(id(w))
                 b.env[st['id']] = w
             elif k == 'mem':
-                b.mems[st['id']] = pyrtl.MemBlock(st['bw'], st['aw'], name='m%d' % st['id'],
+                b.mems[st['id']] = pyrtl.MemBlock(st['bw'], st['aw'], name='m%d' % st.get('name_of', st['id']),
                                                   max_read_ports=None, max_write_ports=None,
                                                   asynchronous=bool(st['async']))
             elif k == 'op':
@@ -460,7 +463,8 @@ class Graph(object):
             ni.w0 = len(net.args[0])
             if net.op in 'm@':
                 m = net.op_param[1]
-                ni.mem, ni.mem_bw, ni.mem_aw = m.name, m.bitwidth, m.addrwidth
+                # (two memories of a design may bear one name: the object is what counts)
+                ni.mem, ni.mem_bw, ni.mem_aw = '%s#%d' % (m.name, m.id), m.bitwidth, m.addrwidth
             else:
                 ni.mem = None
             nets.append(ni)
@@ -1105,6 +1109,15 @@ def run(case, res):
                         pyrtl.optimize(block=blk)
                     elif case['rewrite'] == 'one_bit_selects':
                         pyrtl.one_bit_selects(block=blk)
+                    elif case['rewrite'] == 'add_read_port':
+                        # the user goes on building after a first look at the timing: one more
+                        # read port (through the API, which keeps the memory's own port lists)
+                        for mid in sorted(b.mems):
+                            mm = b.mems[mid]
+                            late = pyrtl.Output(mm.bitwidth, 'late_rd%d' % mid)
+                            late <<= mm[pyrtl.Const(0, bitwidth=mm.addrwidth)]
+                        if not b.mems:
+                            raise pyrtl.PyrtlError('no memory to extend')
                     else:
                         pyrtl.two_way_concat(block=blk)
         except (pyrtl.PyrtlError, pyrtl.PyrtlInternalError):
@@ -1122,7 +1135,7 @@ def run(case, res):
                     # a list the passes do not maintain; what it should be after a rewrite is
                     # not something the property defines)
                     tv = None
-                    if not any(n.op == 'm' for n in g2.nets):
+                    if case['rewrite'] == 'add_read_port' or not any(n.op == 'm' for n in g2.nets):
                         tv, _rep = check_timing(dict(case, tables=['default']), b, g2, res,
                                                 'after_' + case['rewrite'])
                     if tv is not None:
